@@ -26,3 +26,18 @@ CHECKS["C15"] = ("exploration",
    "Master formulas are generated as token lists over the reference grammar; shared groups (column/row/block, non-monotone si, master anywhere) are written into xlsx files and every member's reported formula is compared with the token-level translation; the translation routine is additionally swept directly through a hook over (text, offset) pairs. A failing member is attributed to the token kinds the real routine mistranslates in isolation.",
    "references are generated so that translations stay inside the sheet; whole-row/column references are not generated; trusted base: the xlsx reference encoder",
    "DESIGN.md §7 C15")
+CHECKS["C02"] = ("exploration",
+   "runtime monitoring: generated BIFF8 workbooks vs reference-model oracle; RK decoding swept through a hook (all 2^32 words in thorough)",
+   "Logical workbooks are written by an independent BIFF8 + compound-file encoder, every number in a randomly chosen applicable encoding (NUMBER / RK int / RK float / x100 / MULRK run), and read back through Xls::new + worksheet_range; values are compared numerically and by variant per record kind. The RK decoder is driven directly through a hook against a 10-line reference decoder.",
+   "trusted base: the BIFF8/CFB reference encoders; CodePage 1200; empty-string LABELSST not generated",
+   "DESIGN.md §7 C02")
+CHECKS["C04"] = ("exploration",
+   "runtime monitoring: one logical grid under many run-length plans vs reference-model oracle",
+   "Random grids with adjacent duplicates, blank rows/columns and offsets are written by an independent ODS encoder under several run-length plans (maximal runs, explicit copies, random cuts; trailing empties absent/explicit/huge; covered cells; row wrapper elements) and every plan must read as the model grid through worksheet_range and worksheet_formula.",
+   "trusted base: the ODS reference encoder; empty-text string cells not generated",
+   "DESIGN.md §7 C04")
+CHECKS["C13"] = ("exploration",
+   "runtime monitoring: byte-exact stream comparison across random physical layouts (hook) + workbook equality through Xls::new",
+   "The same stream sets are written under many physical layouts by an independent compound-file writer and read back byte for byte through a feature-gated hook around Cfb::new/get_stream; generated workbooks are opened under every layout and compared with the model.",
+   "trusted base: the compound-file reference writer; stream names unique per container",
+   "DESIGN.md §7 C13")
